@@ -33,10 +33,9 @@ from ..pool import run_tasks, shard_counts
 from ..shrink import get_at, paths, replace_at, shrink
 from . import c05 as G
 
-# C05 also draws exact magnitudes outside the range of a double (10**400): they are kept out of C06, where values are
-# compared after Min/Max and sums - the library orders quantities through double precision, so two quantities below 5e-324
-# compare equal (observed: Max(1e-400 kg/m^3, 1e-402 kg/m^3) -> 1e-402); that is outside the domain generated here
-G._POS_RATS[:] = [r for r in G._POS_RATS if len(r) < 50]  # pylint: disable=protected-access
+# C05 has a class of exact magnitudes outside the range of a double (10**400) in fixed shapes; C06 does not generate them:
+# the library orders quantities through double precision, so two quantities below 5e-324 compare equal (observed:
+# Max(1e-400 kg/m^3, 1e-402 kg/m^3) -> 1e-402), which is outside the domain generated here
 
 PID = "C06"
 RULE = ("Hypothesis-generated JSON trees (C05 strategy, built for a requested M-dim vector, depth<=4) over a generated "
